@@ -319,8 +319,8 @@ func (u *UntrustedInputChecker) OnVisitNodeLeave(n ExprNode) {
 		u.onPropAccess(n.Property)
 	case *IndexAccessNode:
 		if lit, ok := n.Index.(*StringNode); ok {
-			// Special case like github['event']['issue']['title']
-			u.onPropAccess(lit.Value)
+			// Special case like github['event']['issue']['title']. Property names are case insensitive
+			u.onPropAccess(strings.ToLower(lit.Value))
 			break
 		}
 		u.onIndexAccess()
